@@ -26,7 +26,7 @@ from fractions import Fraction
 
 from geolint.model import ClassInfo, FunctionInfo, Program
 from geolint.polyform import LP, NotPolynomial
-from geolint.report import PROVEN, UNDECIDED, VIOLATION, Run
+from geolint.report import INFO, PROVEN, UNDECIDED, VIOLATION, Run
 
 
 class Opaque:
@@ -3464,17 +3464,21 @@ def rule_action_values(run: Run, prog: Program, part: str = "incidence") -> int:
     class _BadDivisor(Exception):
         pass
 
-    def judge(label: str, compute, good: str, bad: str, n_: int) -> None:
+    def judge(label: str, compute, good: str, bad: str, n_: int, deep: bool = False) -> None:
         try:
-            return _judge(label, compute, good, bad, n_)
+            return _judge(label, compute, good, bad, n_, deep)
         except _BadDivisor as ex:
             run.add("E19.act", ap.short, label, VIOLATION,
                     f"the composition divides by `{ex}`, which is not a power of the determinants: it vanishes for invertible matrices too (0/0 = nan for every such pair)", loc)
 
-    def _judge(label: str, compute, good: str, bad: str, n_: int) -> None:
+    def _judge(label: str, compute, good: str, bad: str, n_: int, deep: bool = False) -> None:
         try:
             if compute(mk_sym(True), n_) is False:
                 run.add("E19.act", ap.short, label, VIOLATION, bad + " (already at an integer point)", loc)
+                return
+            if deep and run.tier != "thorough":
+                # the symbolic expansion of this identity takes minutes: the quick tier stops after the integer point (which already refutes a wrong identity)
+                run.add("E19.act", ap.short, label, INFO, "holds at the integer point; expanded as a polynomial identity in the thorough tier only (cost)", loc)
                 return
             ok = compute(mk_sym(False), n_)
             run.add("E19.act", ap.short, label, PROVEN if ok else VIOLATION, good if ok else bad, loc)
@@ -3563,12 +3567,15 @@ def rule_action_values(run: Run, prog: Program, part: str = "incidence") -> int:
         tp, th = apply(p_, t), apply(h_, t)
         return tp.tensor_shape == (1, 0) and th.tensor_shape == (0, 1) and (dot(th, tp) - det_t * dot(h_, p_)).is_zero()
 
-    def c_commute(point: bool):
+    def c_commute(point: bool, k: int = 2):
         def compute(sym, n_):
             t, _ = trans_(sym, n_)
-            a_, b_ = vec_(sym, "a", n_, point), vec_(sym, "b", n_, point)
-            left = apply(dual([a_, b_]), t)
-            right = dual([apply(a_, t), apply(b_, t)])
+            objs = [vec_(sym, "abc"[i], n_, point) for i in range(k)]
+            joined = dual(objs)
+            if len(joined.array.shape) == 2:
+                joined.kinds = {"SubspaceTensor", "LineTensor", "Tensor", "ProjectiveTensor"}
+            left = apply(joined, t)
+            right = dual([apply(o_, t) for o_ in objs])
             return prop(left.array, right.array)
         return compute
 
@@ -3608,6 +3615,12 @@ def rule_action_values(run: Run, prog: Program, part: str = "incidence") -> int:
                 for label, point in (("t * join(p, q) and join(t * p, t * q) in the plane", True), ("t * meet(l, m) and meet(t * l, t * m) in the plane", False)):
                     n_ob += 1
                     judge(label, c_commute(point), "both sides are multiples of each other", "the two sides are not multiples of each other", 3)
+            if n == 4:
+                for label, point, k in (("t * join(p, q, r) and join(t * p, t * q, t * r) in 3-space", True, 3), ("t * meet(e, f, g) and meet(t * e, t * f, t * g) in 3-space", False, 3),
+                                        ("t * join(p, q) and join(t * p, t * q): a line of 3-space", True, 2)):
+                    n_ob += 1
+                    judge(label, c_commute(point, k), "both sides are multiples of each other", "the two sides are not multiples of each other", 4, deep=not (point and k == 3))
+            if n == 3:
                 for label, is_dual in (("a point on a conic", False), ("a line tangent to a conic, through the dual conic", True)):
                     n_ob += 1
                     judge(label, c_conic(is_dual), "(t*x)^T (t*Q) (t*x) = det T^2 (x^T Q x)",
